@@ -24,7 +24,7 @@ import (
 var c12Scenarios = []string{
 	"flush-between-decision-and-registration", // G12: single writer, no other traffic
 	"flush-between-decision-and-registration-flusher-started",
-	"two-writers-around-one-flush",            // G13
+	"two-writers-around-one-flush",              // G13
 	"writer-registers-while-flush-after-commit", // G14
 	"register-then-workless-flush",
 	"stress",
